@@ -215,6 +215,17 @@ func sizeScenarios(p *pg.Program, scs []genrt.Scenario, maxK2 int) []genrt.Scena
 		if sc.Instances > 1 {
 			k *= 2
 		}
+		over := false
+		for _, k := range sc.Dec {
+			if k == probe.OverBar {
+				over = true
+			}
+		}
+		if sc.PreemptBound > 0 || over {
+			// bounded search (sized by the bound), or bodies that block at once
+			out = append(out, sc)
+			continue
+		}
 		if k > maxK2 && (sc.N == 0 || sc.N > 1) {
 			if sc.N == 0 && !((p.Flow != nil && p.Flow.Conc == "expr") || (p.Par != nil && p.Par.Conc == "expr")) {
 				if k > maxK2+1 {
@@ -334,6 +345,265 @@ func planFor(prop, tier string) (*plan, error) {
 	pl := &plan{modes: baseOnly}
 	ns := []int{1, 2}
 	switch prop {
+	case "C01":
+		// dependency edges of generated code: flows with predicates in every
+		// task listing order, multi-result providers, End hooks
+		var ps []*pg.Program
+		for _, n := range []string{"chain2", "fork", "join", "multi", "dup3", "diamond"} {
+			if n == "diamond" && !th {
+				continue
+			}
+			f := exprConc(pg.Shape(n))
+			for _, o := range pg.TaskOrders(f) {
+				g := f.Clone()
+				g.Order = o
+				ps = append(ps, flowProg(g, "LT:"+n))
+			}
+		}
+		for _, n := range []string{"chain2", "fork"} {
+			for _, f := range pg.WithPredFallback(pg.Shape(n), []string{"none", "shared", "own", "upstream"}, 2) {
+				if hasFallback(f) {
+					continue
+				}
+				g := exprConc(f)
+				for _, o := range pg.TaskOrders(g) {
+					h := g.Clone()
+					h.Order = o
+					ps = append(ps, flowProg(h, "PF-LT:"+n))
+				}
+			}
+		}
+		if th {
+			for _, f := range pg.WithPredFallback(pg.Shape("join"), []string{"shared", "upstream"}, 1) {
+				if hasFallback(f) {
+					continue
+				}
+				g := exprConc(f)
+				for _, o := range pg.TaskOrders(g) {
+					h := g.Clone()
+					h.Order = o
+					ps = append(ps, flowProg(h, "PF-LT:join"))
+				}
+			}
+		}
+		for _, par := range pg.Pars(2, false) {
+			if par.HasEnd() {
+				q := par.Clone()
+				q.Conc = "expr"
+				ps = append(ps, parProg(q, "PAR-end"))
+			}
+		}
+		pl.progs = numIDs(ps)
+		pl.scen = func(p *pg.Program) []genrt.Scenario {
+			var out []genrt.Scenario
+			out = append(out, predCombos(p, base(p, 2))...)
+			if p.Par != nil {
+				out = append(out, base(p, 1))
+			}
+			return out
+		}
+	case "C03":
+		// more runnable user functions than the limit: the HB-overlap monitor
+		// and the goroutine census on generated code, explicit and default limits
+		var ps []*pg.Program
+		for _, k := range []int{3, 6} {
+			for _, conc := range []string{"expr", ""} {
+				if k == 3 && conc == "" {
+					continue
+				}
+				q := &pg.Parallel{Conc: conc}
+				for i := 0; i < k; i++ {
+					q.Items = append(q.Items, pg.Item{Kind: "task", Err: i%2 == 0})
+				}
+				ps = append(ps, parProg(q, fmt.Sprintf("PAR-indep%d", k)))
+			}
+		}
+		{
+			q := &pg.Parallel{Conc: "", Items: []pg.Item{{Kind: "tasks", Count: 6, Err: true}}}
+			ps = append(ps, parProg(q, "PAR-tasks6"))
+			s := &pg.Parallel{Conc: "", Items: []pg.Item{{Kind: "slice", Idx: true, Err: true}}}
+			ps = append(ps, parProg(s, "PAR-slice6"))
+			m := &pg.Parallel{Conc: "expr", Items: []pg.Item{{Kind: "map", Err: true}}}
+			ps = append(ps, parProg(m, "PAR-map3"))
+		}
+		{
+			f := pg.Shape("indep3")
+			f.Conc = ""
+			ps = append(ps, flowProg(f, "flow-indep3-default"))
+			g := exprConc(pg.Shape("indep3"))
+			ps = append(ps, flowProg(g, "flow-indep3"))
+			ps = append(ps, flowProg(indepFlow(6), "flow-indep6-default"))
+		}
+		{
+			q := &pg.Parallel{Conc: ""}
+			for i := 0; i < 5; i++ {
+				q.Items = append(q.Items, pg.Item{Kind: "task", Err: i%2 == 0})
+			}
+			ps = append(ps, parProg(q, "over:PAR-indep5-default"))
+			ps = append(ps, flowProg(indepFlow(5), "over:flow-indep5-default"))
+			q3 := &pg.Parallel{Conc: "expr"}
+			for i := 0; i < 3; i++ {
+				q3.Items = append(q3.Items, pg.Item{Kind: "task", Err: i%2 == 0})
+			}
+			ps = append(ps, parProg(q3, "over:PAR-indep3"))
+			ps = append(ps, flowProg(exprConc(pg.Shape("indep3")), "over:flow-indep3"))
+			sl := &pg.Parallel{Conc: "", Items: []pg.Item{{Kind: "slice", Idx: true, Err: true}}}
+			ps = append(ps, parProg(sl, "over:PAR-slice5-default"))
+		}
+		pl.progs = numIDs(ps)
+		pl.scen = func(p *pg.Program) []genrt.Scenario {
+			var out []genrt.Scenario
+			if strings.HasPrefix(p.Fam, "over:") {
+				// limit+1 functions that can only all return if they run at the same time
+				n := 0
+				if strings.HasSuffix(p.Fam, "3") {
+					n = 2
+				}
+				sc := base(p, n)
+				sc.GOMAXP = 2
+				var ids []string
+				if p.Par != nil && p.Par.Items[0].Kind == "slice" {
+					sc.Colls = [][]uint64{{1, 2, 3, 4, 5}}
+					ids = []string{pg.ItemID(p.ID, 0)}
+					sc = withDec(sc, ids, probe.OverBar)
+					sc.OverN = 5
+				} else {
+					ids = panickable(p)
+					sc = withDec(sc, ids, probe.OverBar)
+				}
+				return []genrt.Scenario{sc}
+			}
+			big := strings.Contains(p.Fam, "6") || p.Fam == "flow-indep3-default"
+			if big {
+				// too large for all interleavings: every schedule without preemption
+				sc := base(p, 0)
+				if p.Par != nil && p.Par.Items[0].Kind == "slice" {
+					sc.Colls = [][]uint64{{1, 2, 3, 4, 5, 6}}
+				}
+				sc.GOMAXP = 2
+				sc.PreemptBound = 1
+				sc.MaxExecs = 20000
+				sc.Note = "bounded"
+				out = append(out, sc)
+				return out
+			}
+			nn := []int{1, 2}
+			if (p.Flow != nil && p.Flow.Conc == "") || (p.Par != nil && p.Par.Conc == "") {
+				nn = []int{0}
+			}
+			for _, n := range nn {
+				sc := base(p, n)
+				if p.Par != nil && p.Par.Items[0].Kind == "map" && n == 1 {
+					sc.Maps = []map[string]uint64{{"1": 11, "2": 12, "3": 13}}
+				}
+				if n == 0 {
+					sc.GOMAXP = 2
+				}
+				out = append(out, sc)
+			}
+			return out
+		}
+	case "C05", "C06":
+		// termination and goroutine leaks of whole directives
+		var ps []*pg.Program
+		for _, n := range []string{"single", "chain2", "fork", "join"} {
+			f := exprConc(pg.Shape(n))
+			for i := range f.Tasks {
+				f.Tasks[i].Ctx = i%2 == 0
+			}
+			ps = append(ps, flowProg(f, "shape:"+n))
+		}
+		{
+			f := pg.Shape("fork")
+			f.Conc = ""
+			ps = append(ps, flowProg(f, "default-conc:fork"))
+			f2 := pg.Shape("single")
+			f2.Conc = ""
+			ps = append(ps, flowProg(f2, "default-conc:single"))
+		}
+		for _, f := range pg.WithPredFallback(pg.Shape("chain2"), []string{"shared"}, 1) {
+			ps = append(ps, flowProg(exprConc(f), "PF:chain2"))
+		}
+		for i, par := range pg.Pars(2, false) {
+			if len(par.Items) == 2 && i%2 == 1 && !th {
+				continue
+			}
+			for _, coe := range []string{"", "true"} {
+				if coe != "" && par.HasEnd() {
+					continue
+				}
+				q := par.Clone()
+				q.Conc = "expr"
+				q.COE = coe
+				ps = append(ps, parProg(q, "PAR"))
+			}
+		}
+		{
+			q := &pg.Parallel{Conc: "", Items: []pg.Item{{Kind: "task", Err: true}, {Kind: "task", Ctx: true}}}
+			ps = append(ps, parProg(q, "default-conc:par"))
+		}
+		pl.progs = numIDs(ps)
+		pl.scen = func(p *pg.Program) []genrt.Scenario {
+			var out []genrt.Scenario
+			n := 2
+			defaultConc := strings.HasPrefix(p.Fam, "default-conc")
+			if defaultConc {
+				n = 0
+			}
+			mk := func() genrt.Scenario {
+				sc := base(p, n)
+				sc.COE = true
+				if defaultConc {
+					sc.GOMAXP = 1
+				}
+				return sc
+			}
+			out = append(out, predCombos(p, mk())...)
+			for _, sub := range subsetsOf(failable(p), 2) {
+				out = append(out, withDec(mk(), sub, probe.Fail))
+			}
+			all := panickable(p)
+			for i, id := range all {
+				if i > 1 {
+					break
+				}
+				s1 := withDec(mk(), []string{id}, probe.Panic)
+				s1.PanicKind = "string"
+				out = append(out, s1)
+				if !isPredID(id) {
+					out = append(out, withDec(mk(), []string{id}, probe.Goexit))
+					out = append(out, withDec(mk(), []string{id}, probe.Cancel))
+				}
+			}
+			pre := mk()
+			pre.Cancel = "pre"
+			out = append(out, pre)
+			if !defaultConc && (th || jobCount(p, &pre) <= 3) {
+				thr := mk()
+				thr.Cancel = "thread"
+				out = append(out, thr)
+			}
+			// a function still running when another one fails / the context is cancelled
+			fl := failable(p)
+			for _, g := range all {
+				if isPredID(g) {
+					continue
+				}
+				for _, id := range fl {
+					if id != g {
+						out = append(out, withDec(withDec(mk(), []string{id}, probe.Fail), []string{g}, probe.Gate))
+						break
+					}
+				}
+				break
+			}
+			if p.Fam == "shape:single" || p.Fam == "shape:chain2" {
+				s6 := base(p, 1)
+				s6.Instances = 2
+				out = append(out, s6)
+			}
+			return out
+		}
 	case "C02":
 		ps := coreFlows(th)
 		// listing orders
@@ -347,6 +617,19 @@ func planFor(prop, tier string) (*plan, error) {
 				g := f.Clone()
 				g.Order = o
 				ps = append(ps, flowProg(g, "L:"+n))
+			}
+		}
+		// every permutation of the tasks in the listing, for shapes with 2-4 tasks
+		tshapes := []string{"chain2", "join", "multi", "dup3"}
+		if th {
+			tshapes = append(tshapes, "chain3", "diamond", "invoke", "fork")
+		}
+		for _, n := range tshapes {
+			f := exprConc(pg.Shape(n))
+			for _, o := range pg.TaskOrders(f) {
+				g := f.Clone()
+				g.Order = o
+				ps = append(ps, flowProg(g, "LT:"+n))
 			}
 		}
 		// spellings of value types and forms of task expressions
@@ -737,7 +1020,7 @@ func planFor(prop, tier string) (*plan, error) {
 		}
 	case "C12":
 		var ps []*pg.Program
-		shapes := []string{"single", "chain2", "fork", "join", "multi"}
+		shapes := []string{"single", "chain2", "fork", "join", "multi", "dup3"}
 		if th {
 			shapes = append(shapes, "diamond", "chain3", "indep3", "invoke")
 		}
@@ -893,6 +1176,32 @@ func planFor(prop, tier string) (*plan, error) {
 			pp.F.Shadow = []string{nm}
 			mk(pp)
 		}
+		// the same directives placed so that their arguments straddle the line
+		// 9/10 and 99/100 boundaries (positions are part of generated names)
+		var padded []*pg.Program
+		for _, p := range ps {
+			if p.Fam != "shape:chain2" && p.Fam != "shape:multi" && p.Fam != "PAR" && p.Fam != "INS:1" {
+				continue
+			}
+			for _, target := range []int{96, 97, 98, 99} {
+				q := *p
+				if p.Flow != nil {
+					q.Flow = p.Flow.Clone()
+				} else {
+					q.Par = p.Par.Clone()
+				}
+				q.F.Pad = padFor(&q, target)
+				if q.F.Pad <= 0 {
+					continue
+				}
+				q.Fam = p.Fam + "/line" + fmt.Sprint(target)
+				padded = append(padded, &q)
+			}
+		}
+		if !th && len(padded) > 60 {
+			padded = padded[:60]
+		}
+		ps = append(ps, padded...)
 		pl.progs = numIDs(ps)
 		pl.scen = func(p *pg.Program) []genrt.Scenario {
 			sc := base(p, 2)
@@ -1009,3 +1318,35 @@ func subsetsInts(n int) [][]int {
 }
 
 func isPredID(id string) bool { return strings.Contains(id, ".p") }
+
+// padFor returns the number of filler lines that puts the directive call of p
+// on the given line of its source file.
+func padFor(p *pg.Program, line int) int {
+	q := *p
+	q.F.Pad = 0
+	q.ID = "X0000"
+	src := pg.Render(&q, "x", "x")
+	cur := 0
+	for i, l := range strings.Split(src, "\n") {
+		if strings.Contains(l, ".Flow(") || strings.Contains(l, ".Parallel(") {
+			cur = i + 1
+			break
+		}
+	}
+	if cur == 0 {
+		return 0
+	}
+	// Pad > 0 also adds one blank line
+	return line - cur - 1
+}
+
+// indepFlow: k independent tasks (no Concurrency option), all results requested.
+func indepFlow(k int) *pg.Flow {
+	f := &pg.Flow{}
+	for i := 0; i < k; i++ {
+		f.Types = append(f.Types, pg.SpStruct)
+		f.Results = append(f.Results, i)
+		f.Tasks = append(f.Tasks, pg.Task{Out: []int{i}, Err: true})
+	}
+	return f
+}
